@@ -517,7 +517,8 @@ class HMixed:
                 for keys in itertools.combinations(META_KEYS_MSG, n):
                     yield {'kind': 'MetaDataReplace', 'elems': keys}
         if 'RunningOrderReplace' in K:
-            for ids, layout in (((), 'before'), (('E',), 'after'), (('A', 'E'), 'before'), (('AB', 'A'), 'between')):
+            # (the replacement with stories and items first: it is the one picked when only k cases per class are taken)
+            for ids, layout in ((('AB', 'A'), 'between'), (('A', 'E'), 'before'), (('E',), 'after'), ((), 'before')):
                 ids = tuple(i for i in ids if i in self.pool or i == 'E')[:self.cap]
                 yield {'kind': 'RunningOrderReplace', 'stories': ids, 'layout': layout}
         if 'RunningOrderEnd' in K:
@@ -749,7 +750,7 @@ class HEnum:
         return False
 
 
-TIMING_KINDS = ('dur', 'text', 'media', 'both', 'dur+text', 'zero', 'zero-text', 'none', 'nometa')
+TIMING_KINDS = ('dur', 'text', 'media', 'both', 'dur+text', 'zero', 'zero-text', 'none', 'nometa', 'nopayload')
 T_STARTED = {'A': '2020-03-01T10:00:00', 'AB': '2020-03-01T10:07:30', 'C': '2020-03-01T11:00:01', 'D': '2020-03-02T00:00:00'}
 T_ENDED = {'A': '2020-03-01T10:05:00', 'AB': '2020-03-01T10:09:45', 'C': '2020-03-01T11:30:00', 'D': '2020-03-02T00:00:59'}
 
